@@ -1702,9 +1702,14 @@ func (db *DB) checkDatabaseBehindReplica(ctx context.Context) error {
 	defer func() { _ = os.Remove(tmpPath) }() // Clean up temp file on error
 
 	verifhook.FS("write", tmpPath, "")
-	if _, err := io.Copy(tmpFile, reader); err != nil {
+	if n, err := io.Copy(tmpFile, reader); err != nil {
 		_ = tmpFile.Close()
 		return fmt.Errorf("copy L0 file: %w", err)
+	} else if replicaInfo.Size > 0 && n != replicaInfo.Size {
+		// A download that ends early without an error must not be installed: a
+		// truncated baseline file makes every later sync fail on it.
+		_ = tmpFile.Close()
+		return fmt.Errorf("copy L0 file: short read: %d of %d bytes", n, replicaInfo.Size)
 	}
 
 	verifhook.FS("fsync", tmpPath, "")
